@@ -116,7 +116,11 @@ func (self ObjectTypeField) String() string {
 	} else {
 		key = self.FieldName.ident
 	}
-	return fmt.Sprintf("%s: %s", key, self.Type)
+	annotation := ""
+	if self.Annotation != nil {
+		annotation = self.Annotation.ident + " "
+	}
+	return fmt.Sprintf("%s%s: %s", annotation, key, self.Type)
 }
 
 //
